@@ -36,12 +36,12 @@ type Conn struct {
 	// that an operation pending at that moment fails with a timeout even if the
 	// deadline is cleared again before it gets to run (the net.Conn contract).
 	rdGen, wrGen int
-	Writes        []WriteRec // everything written on this end, in order
+	Writes       []WriteRec // everything written on this end, in order
 	// Fault injection: fail the n-th Read / Write (0-based) with an error; -1 off.
 	FailRead, FailWrite int
 	// FailWriteIf, if set, is asked about every write; true makes it fail.
-	FailWriteIf func(p []byte) bool
-	reads, writes       int
+	FailWriteIf   func(p []byte) bool
+	reads, writes int
 	// OnWrite, if set, is called (in the writer's thread) after each write.
 	OnWrite func(p []byte)
 }
@@ -70,34 +70,45 @@ func (e faultErr) Error() string { return e.s }
 
 func passed(t time.Time) bool { return !t.IsZero() && !t.After(time.Now()) }
 
-func (c *Conn) Read(p []byte) (int, error) {
-	n := c.reads
-	c.reads++
-	if c.FailRead >= 0 && n == c.FailRead {
+func (c *Conn) Read(p []byte) (n int, err error) {
+	var k, gen int
+	vs.Atomically(func() {
+		k = c.reads
+		c.reads++
+		gen = c.rdGen
+	})
+	if c.FailRead >= 0 && k == c.FailRead {
 		return 0, faultErr{"memconn: injected read error"}
 	}
-	gen := c.rdGen
 	vs.Block("read "+c.name, func() bool {
 		return len(c.rd.buf) > 0 || c.rd.closed || c.closed || passed(c.readDeadline) || c.rdGen != gen
 	})
-	switch {
-	case c.closed:
-		return 0, net.ErrClosed
-	case passed(c.readDeadline) || c.rdGen != gen:
-		return 0, timeoutErr{}
-	case len(c.rd.buf) > 0:
-		k := copy(p, c.rd.buf)
-		c.rd.buf = c.rd.buf[k:]
-		vs.Broadcast()
-		return k, nil
-	}
-	return 0, io.EOF
+	vs.Atomically(func() {
+		switch {
+		case c.closed:
+			n, err = 0, net.ErrClosed
+		case passed(c.readDeadline) || c.rdGen != gen:
+			n, err = 0, timeoutErr{}
+		case len(c.rd.buf) > 0:
+			n = copy(p, c.rd.buf)
+			c.rd.buf = c.rd.buf[n:]
+		default:
+			n, err = 0, io.EOF
+		}
+	})
+	return n, err
 }
 
-func (c *Conn) Write(p []byte) (int, error) {
-	n := c.writes
-	c.writes++
-	if c.FailWrite >= 0 && n == c.FailWrite {
+func (c *Conn) Write(p []byte) (n int, err error) {
+	var k, gen int
+	blocked := false
+	vs.Atomically(func() {
+		k = c.writes
+		c.writes++
+		gen = c.wrGen
+		blocked = c.wr.cap > 0 && len(c.wr.buf) >= c.wr.cap
+	})
+	if c.FailWrite >= 0 && k == c.FailWrite {
 		return 0, faultErr{"memconn: injected write error"}
 	}
 	if c.FailWriteIf != nil && c.FailWriteIf(p) {
@@ -107,29 +118,29 @@ func (c *Conn) Write(p []byte) (int, error) {
 	// connection it only fails if the deadline is in the past at the moment it
 	// is performed. Only a write blocked on a full pipe is interrupted by a
 	// deadline that passes (and is possibly cleared again) while it waits.
-	gen := c.wrGen
-	blocked := false
 	if c.wr.cap > 0 {
-		blocked = len(c.wr.buf) >= c.wr.cap
 		vs.Block("write "+c.name, func() bool {
 			return len(c.wr.buf) < c.wr.cap || c.closed || c.wr.closed || passed(c.writeDeadline) || c.wrGen != gen
 		})
 	} else {
 		vs.Yield("write " + c.name)
 	}
-	switch {
-	case c.closed || c.wr.closed:
-		return 0, io.ErrClosedPipe
-	case passed(c.writeDeadline) || (blocked && c.wrGen != gen):
-		return 0, timeoutErr{}
-	}
-	c.wr.buf = append(c.wr.buf, p...)
-	c.Writes = append(c.Writes, WriteRec{Data: append([]byte(nil), p...)})
-	vs.Broadcast()
-	if c.OnWrite != nil {
+	vs.Atomically(func() {
+		switch {
+		case c.closed || c.wr.closed:
+			n, err = 0, io.ErrClosedPipe
+		case passed(c.writeDeadline) || (blocked && c.wrGen != gen):
+			n, err = 0, timeoutErr{}
+		default:
+			c.wr.buf = append(c.wr.buf, p...)
+			c.Writes = append(c.Writes, WriteRec{Data: append([]byte(nil), p...)})
+			n = len(p)
+		}
+	})
+	if err == nil && c.OnWrite != nil {
 		c.OnWrite(p)
 	}
-	return len(p), nil
+	return n, err
 }
 
 // Written returns all bytes written on this end.
@@ -142,18 +153,25 @@ func (c *Conn) Written() []byte {
 }
 
 // Pending returns the bytes written by the peer that were not read yet.
-func (c *Conn) Pending() int { return len(c.rd.buf) }
+func (c *Conn) Pending() (n int) {
+	if vs.Free {
+		vs.Atomically(func() { n = len(c.rd.buf) })
+		return n
+	}
+	return len(c.rd.buf)
+}
 
 // Close closes this end: the peer reads EOF after draining, local operations fail.
 func (c *Conn) Close() error {
-	c.closed = true
-	c.wr.closed = true
-	vs.Broadcast()
+	vs.Atomically(func() {
+		c.closed = true
+		c.wr.closed = true
+	})
 	return nil
 }
 
 // CloseWrite half-closes: the peer reads EOF after draining.
-func (c *Conn) CloseWrite() { c.wr.closed = true; vs.Broadcast() }
+func (c *Conn) CloseWrite() { vs.Atomically(func() { c.wr.closed = true }) }
 
 type addr string
 
@@ -169,19 +187,21 @@ func (c *Conn) SetDeadline(t time.Time) error {
 }
 
 func (c *Conn) SetReadDeadline(t time.Time) error {
-	c.readDeadline = t
-	if passed(t) {
-		c.rdGen++
-	}
-	vs.Broadcast()
+	vs.Atomically(func() {
+		c.readDeadline = t
+		if passed(t) {
+			c.rdGen++
+		}
+	})
 	return nil
 }
 
 func (c *Conn) SetWriteDeadline(t time.Time) error {
-	c.writeDeadline = t
-	if passed(t) {
-		c.wrGen++
-	}
-	vs.Broadcast()
+	vs.Atomically(func() {
+		c.writeDeadline = t
+		if passed(t) {
+			c.wrGen++
+		}
+	})
 	return nil
 }
